@@ -123,3 +123,36 @@ Proof.
   pose proof (proj1 (forallb_forall _ _) H l Hin) as H1. cbv beta in H1. rewrite Hs in H1.
   apply Nat.ltb_lt. exact H1.
 Qed.
+
+(* ---- the handler's context ---- *)
+Definition cancel_check (strict : bool) (v : sv) : bool :=
+  if negb (vinv strict v) then true else
+  if v_tab v then
+    forallb (fun m => match vstep strict v (SLoop FCancel m) with Some (v', _) => v_ctx v' | None => true end) all_lmode
+  else true.
+Lemma cancel_all : forall strict, forall_sv (cancel_check strict) = true.
+Proof. intros []; vm_compute; reflexivity. Qed.
+
+(* C07: once the tunnel has delivered the cancel notice (the serve loop takes the cancel frame of a
+   stream it still has), the handler's context is cancelled *)
+Theorem rpc_cancel_notice_cancels_the_handler strict v m v' em :
+  vinv strict v = true -> v_tab v = true -> vstep strict v (SLoop FCancel m) = Some (v', em) -> v_ctx v' = true.
+Proof.
+  intros Hv Ht Hs. pose proof (forall_sv_ok _ (cancel_all strict) v) as H. unfold cancel_check in H.
+  rewrite Hv, Ht in H. cbn [negb] in H.
+  pose proof (proj1 (forallb_forall _ _) H m (all_lmode_ok m)) as H1. cbv beta in H1. rewrite Hs in H1. exact H1.
+Qed.
+
+Definition P_v_ctx (v : sv) : bool := Bool.eqb (v_ctx v) (negb (is_none (v_fin v))).
+Lemma vP_ctx strict : forall v, vinv strict v = true -> P_v_ctx v = true.
+Proof. apply vinv_implies. destruct strict; vm_compute; reflexivity. Qed.
+
+(* ... and never otherwise: in every reachable state the handler's context is cancelled exactly when
+   the stream has been finished (handler return, cancel notice, a violation) *)
+Theorem rpc_handler_context_cancelled_iff_finished strict ls s :
+  rrun strict r_init ls = Some s -> (v_ctx (r_v s) = true <-> v_fin (r_v s) <> None).
+Proof.
+  intros Hrun. destruct (rpc_run_inv _ _ _ Hrun) as [_ Hv _ _ _ _].
+  pose proof (vP_ctx _ _ Hv) as H. unfold P_v_ctx in H. apply eqb_prop in H. rewrite H.
+  destruct (v_fin (r_v s)); cbn; split; intros; try congruence; discriminate.
+Qed.
